@@ -525,6 +525,25 @@ func computeAdmissible(w *Workload, prep [][]*Prepared, warm []*Prepared, seed u
 					a.textStable[t][i] = o3.Class == "error" && o3.Text == al.Text
 				}
 			}
+			if al.Class == "panic" && o.Class == "panic" || al.Class == "error" && o.Class == "error" && o.Text == al.Text {
+				// A call that fails alone may fail in another way under another iteration order
+				// INSIDE the call (a query with two bad parameters reports whichever the map range
+				// reaches first): every way it fails alone is "what it returns alone".
+				simrt.SetPermHook(reversed)
+				var o4 Outcome
+				ok := callWithTimeout(func() { o4 = aloneOp(w.Codec, prep[t][i]) })
+				simrt.SetPermHook(nil)
+				if !ok {
+					a.SeqDeadlock = true
+					return a
+				}
+				if o4.Class != "ok" && o4.Class != "not_run" {
+					a.seqClasses[t][i][o4.Class] = true
+					if o4.Class != al.Class {
+						a.textStable[t][i] = false
+					}
+				}
+			}
 			if o.Class != al.Class || (o.Class == "ok" && o.Canon != al.Canon) {
 				if a.SeqViolation == nil {
 					a.SeqViolation = &Violation{Class: "result_differs", Task: t, Op: i, OpSpec: w.Tasks[t][i].String(),
